@@ -222,16 +222,29 @@ def judge(case):
                 return
 
     # operators: the complete documented table
+    present_ops = 0
+    if any(isinstance(n, ast.Compare) and len(n.ops) > 1 for n in ast.walk(tree)):
+        classes.append('chained-comparison')
+    if any(isinstance(n, ast.AugAssign) for n in ast.walk(tree)):
+        classes.append('augmented-assignment')
     for sym in list(COMPARE) + list(BOOLOPS) + list(BINOPS) + list(UNARY):
         lo, hi, locs = op_count(tree, sym)
+        present_ops += hi > 0
+        if lo >= 2:
+            classes.append('operator-repeated')
         cell = 'C08|operator=%s' % sym
         thresholds(lo, hi, S.ensure_operation, S.prevent_operation, sym, cell, 'operation(%r)' % sym, locs)
         found(find_operation(sym), lo, hi, locs, cell, 'find_operation(%r)' % sym)
+    classes.append('operators-present=%s' % ('0' if not present_ops else '1-3' if present_ops <= 3 else '4-8' if present_ops <= 8 else '9+'))
     # calls
     names = sorted({(n.func.id if isinstance(n.func, ast.Name) else n.func.attr) for n in ast.walk(tree)
                     if isinstance(n, ast.Call) and isinstance(n.func, (ast.Name, ast.Attribute))})[:6]
+    if names:
+        classes.append('calls-present')
     for name in names + ['never_called_fn']:
         lo, hi, locs = call_count(tree, name)
+        if lo >= 2:
+            classes.append('call-repeated')
         thresholds(lo, hi, S.ensure_function_call, S.prevent_function_call, name, 'C08|call', 'function_call(%r)' % name, locs)
         found(find_function_calls(name), lo, hi, locs, 'C08|call', 'find_function_calls(%r)' % name)
     # literals: present values + near misses
@@ -297,6 +310,7 @@ def judge(case):
             continue
         if has:
             state['nontrivial'] = True
+            classes.append('import-present')
         if e != (not has):
             viol.append(V('C08|import|ensure', 'ensure_import(%r) fired=%r but imported=%r; program:\n%s' % (m, e, has, code[:300])))
         if p != has:
@@ -307,7 +321,7 @@ def judge(case):
         if v.cell not in cells:
             cells.add(v.cell)
             out.append(v)
-    return Result(out, state['nontrivial'], classes, 1 if state['amb'] else 0)
+    return Result(out, state['nontrivial'], sorted(set(classes)), 1 if state['amb'] else 0)
 
 
 def programs(tier):
